@@ -499,6 +499,7 @@ def placement_sweep(digital_rf, root, n, d, fc, sc, js, limbs, sub_fields, prefi
     pat = re.compile(r"^" + re.escape(prefix) + r"@(\d+)\.h5$")
     evs = []
     last_k = -1
+    first_k = None
     known = {}   # path -> set of group names seen
 
     def scan(k):
@@ -535,6 +536,13 @@ def placement_sweep(digital_rf, root, n, d, fc, sc, js, limbs, sub_fields, prefi
                 rd = rd_old if (len(evs) % 2) else digital_rf.DigitalMetadataReader(root)
                 res = rd.read(k, k)
                 found = [int(x) for x in res.keys()] == [k] and res[k].get("v") == k % 1000003
+                # the first sample of the sweep stays where it was put: asked for again by its own index (0 at the epoch)
+                # once later samples exist, it is still the one returned
+                if found and first_k is None:
+                    first_k = k
+                elif found:
+                    r0 = rd.read(first_k, first_k)
+                    found = [int(x) for x in r0.keys()] == [first_k] and r0[first_k].get("v") == first_k % 1000003
                 lt = rd.read_latest()
                 latest = [int(x) for x in lt.keys()] == [k]
             except Exception:  # noqa: BLE001
